@@ -27,6 +27,7 @@ type c03term struct {
 	fld  *types.Var
 	typ  types.Type
 	vt   types.Type // static type of param/val/free terms (not part of the identity)
+	v    ssa.Value  // the SSA value of a val term (not part of the identity)
 	args []*c03term
 	str  string
 }
@@ -175,7 +176,7 @@ func (t *c03term) subst(args []*c03term) *c03term {
 		}
 		return nil
 	}
-	n := &c03term{op: t.op, idx: t.idx, name: t.name, fld: t.fld, typ: t.typ}
+	n := &c03term{op: t.op, idx: t.idx, name: t.name, fld: t.fld, typ: t.typ, vt: t.vt, v: t.v}
 	for _, a := range t.args {
 		s := a.subst(args)
 		if s == nil {
@@ -239,7 +240,7 @@ func (e *c03eng) termOfD(v ssa.Value, d int) *c03term {
 	if p := c03parentOf(v); p != nil {
 		name = p.String() + "#" + name
 	}
-	return &c03term{op: "val", name: name, vt: v.Type()}
+	return &c03term{op: "val", name: name, vt: v.Type(), v: v}
 }
 
 func c03parentOf(v ssa.Value) *ssa.Function {
@@ -1046,13 +1047,112 @@ func (e *c03eng) entryClause(d *ssa.BasicBlock) (c03clause, bool) {
 	return c03clause{atoms: atoms, at: d}, true
 }
 
+// condFacts: the unit facts implied by a branch condition having the given truth value. Besides a plain atom it
+// decomposes a materialised short-circuit (`a && b` / `a || b` compiled to a phi of booleans, as go/ssa does for
+// switch-case conditions and assigned booleans): if exactly one incoming edge of the phi can carry the value, the
+// facts of that edge hold.
+func (e *c03eng) condFacts(cond ssa.Value, pol bool, depth int) []c03clause {
+	if a, ok := e.atomOf(cond, pol); ok {
+		return []c03clause{{atoms: []c03atom{a}}}
+	}
+	if u, ok := cond.(*ssa.UnOp); ok && u.Op == token.NOT {
+		return e.condFacts(u.X, !pol, depth)
+	}
+	phi, ok := cond.(*ssa.Phi)
+	if !ok || depth > 3 {
+		return nil
+	}
+	pb := phi.Block()
+	cand := -1
+	var cands []int
+	for i, ed := range phi.Edges {
+		if k, isK := ed.(*ssa.Const); isK && k.Value != nil && k.Value.Kind() == constant.Bool {
+			if constant.BoolVal(k.Value) != pol {
+				continue
+			}
+		}
+		cands = append(cands, i)
+	}
+	if len(cands) == 0 {
+		return nil
+	}
+	if len(cands) > 1 {
+		// several edges can carry the value: a disjunction of one deciding atom per edge (the constant edge is
+		// decided by the branch that leads into it, the computed edge by its own value)
+		var atoms []c03atom
+		for _, i := range cands {
+			p := pb.Preds[i]
+			if _, isK := phi.Edges[i].(*ssa.Const); isK {
+				ifi, ok := p.Instrs[len(p.Instrs)-1].(*ssa.If)
+				if !ok || len(p.Succs) != 2 || p.Succs[0] == p.Succs[1] {
+					return nil
+				}
+				a, ok := e.atomOf(ifi.Cond, p.Succs[0] == pb)
+				if !ok {
+					return nil
+				}
+				atoms = append(atoms, a)
+			} else {
+				a, ok := e.atomOf(phi.Edges[i], pol)
+				if !ok {
+					return nil
+				}
+				atoms = append(atoms, a)
+			}
+		}
+		return []c03clause{{atoms: atoms}}
+	}
+	cand = cands[0]
+	p := pb.Preds[cand]
+	var out []c03clause
+	if _, isK := phi.Edges[cand].(*ssa.Const); !isK {
+		out = append(out, e.condFacts(phi.Edges[cand], pol, depth+1)...)
+	}
+	// the facts under which the chosen predecessor is entered, and of its own edge into the phi block
+	for _, cl := range e.factsAtBlockD(p, depth+1) {
+		cl.at = nil
+		out = append(out, cl)
+	}
+	if ifi, ok := p.Instrs[len(p.Instrs)-1].(*ssa.If); ok && len(p.Succs) == 2 && p.Succs[0] != p.Succs[1] {
+		out = append(out, e.condFacts(ifi.Cond, p.Succs[0] == pb, depth+1)...)
+	}
+	return out
+}
+
+// entryFacts: all clauses established on entry to d: the entry clause and, for a single forward predecessor, the
+// decomposition of a short-circuit condition.
+func (e *c03eng) entryFacts(d *ssa.BasicBlock, depth int) []c03clause {
+	if cl, ok := e.entryClause(d); ok {
+		return []c03clause{cl}
+	}
+	var fwd []*ssa.BasicBlock
+	for _, p := range d.Preds {
+		if !d.Dominates(p) {
+			fwd = append(fwd, p)
+		}
+	}
+	if len(fwd) != 1 {
+		return nil
+	}
+	p := fwd[0]
+	ifi, ok := p.Instrs[len(p.Instrs)-1].(*ssa.If)
+	if !ok || len(p.Succs) != 2 || p.Succs[0] == p.Succs[1] {
+		return nil
+	}
+	out := e.condFacts(ifi.Cond, p.Succs[0] == d, depth)
+	for i := range out {
+		out[i].at = d
+	}
+	return out
+}
+
 // factsAtBlock returns the clauses that hold on entry to b (from b and all its dominators).
-func (e *c03eng) factsAtBlock(b *ssa.BasicBlock) []c03clause {
+func (e *c03eng) factsAtBlock(b *ssa.BasicBlock) []c03clause { return e.factsAtBlockD(b, 0) }
+
+func (e *c03eng) factsAtBlockD(b *ssa.BasicBlock, depth int) []c03clause {
 	var out []c03clause
 	for d := b; d != nil; d = d.Idom() {
-		if cl, ok := e.entryClause(d); ok {
-			out = append(out, cl)
-		}
+		out = append(out, e.entryFacts(d, depth)...)
 	}
 	return out
 }
@@ -1619,6 +1719,29 @@ func (e *c03eng) decideLocal(g c03goal, cls []c03clause) (ok bool, used []c03cla
 				return true, u, residual, "Kind() test on the same value"
 			}
 		}
+		// range tests: k >= reflect.Int && k <= reflect.Int64
+		if lo, hi := c03interval(kt, cls); lo >= 0 && hi <= 64 && hi >= lo {
+			sub := true
+			for k := lo; k <= hi; k++ {
+				if allowed != nil && !allowed[k] {
+					continue
+				}
+				if !g.kinds[k] {
+					sub = false
+				}
+			}
+			if sub {
+				for _, cl := range cls {
+					for _, a := range cl.atoms {
+						if a.kind == "cmp" && c03eq(a.t, kt) {
+							u = append(u, cl)
+							break
+						}
+					}
+				}
+				return true, u, residual, "Kind() range test on the same value"
+			}
+		}
 	case "type":
 		var pos []types.Type
 		posNil := false
@@ -1665,6 +1788,12 @@ func (e *c03eng) decideLocal(g c03goal, cls []c03clause) (ok bool, used []c03cla
 					exclNil = true
 					u = append(u, cl)
 				}
+			}
+		}
+		if !havePos {
+			// closed universe of a library producer (json.Decoder.Token)
+			if uni, uniNil, ok := c03universe(g.t); ok {
+				pos, posNil, havePos = uni, uniNil, true
 			}
 		}
 		if havePos {
@@ -1793,6 +1922,28 @@ func c03intervalImplies(lo, hi int64, op token.Token, k int64) bool {
 		return lo >= k
 	}
 	return false
+}
+
+// c03universe: the closed set of dynamic types of a value produced by a library call with a documented closed result
+// set: encoding/json.Decoder.Token yields json.Delim, bool, float64, string or nil (json.Number only after UseNumber,
+// which rule K6 excludes).
+func c03universe(t *c03term) ([]types.Type, bool, bool) {
+	if t == nil || t.op != "extract" || t.idx != 0 || len(t.args) != 1 || t.args[0].op != "val" {
+		return nil, false, false
+	}
+	call, ok := t.args[0].v.(*ssa.Call)
+	if !ok || !core.IsCallTo(call, "encoding/json", "Decoder.Token") {
+		return nil, false, false
+	}
+	o := core.CalleeObj(call)
+	var delim types.Type
+	if tn, ok := o.Pkg().Scope().Lookup("Delim").(*types.TypeName); ok {
+		delim = tn.Type()
+	}
+	if delim == nil {
+		return nil, false, false
+	}
+	return []types.Type{delim, types.Typ[types.Bool], types.Typ[types.Float64], types.Typ[types.String]}, true, true
 }
 
 const c03maxDepth = 3
